@@ -277,6 +277,21 @@ def bmc_violations(res, found):
     return out
 
 
+def guarded_parts(res, *makers):
+    """bounded parts whose *construction of the test objects* runs the code under test (Node / Line constructors): an exception there must not hide the
+    verdicts of the proved part -- it is recorded as a crash of the bounded part (CHECKER-DEFECT line; exit 3 only if nothing else is reported)"""
+    import traceback
+    parts = []
+    for mk in makers:
+        try:
+            parts.append(mk())
+        except Exception as e:  # noqa
+            tb = traceback.extract_tb(e.__traceback__)
+            where = next((f'{f.filename}:{f.lineno}' for f in reversed(tb) if '/kyupy/' in f.filename), f'{tb[-1].filename}:{tb[-1].lineno}' if tb else '?')
+            res.crashes.append(f'bounded part raised while building / running its cases: {e!r} at {where}')
+    return parts
+
+
 BASELINE = os.path.join(os.path.dirname(os.path.dirname(os.path.abspath(__file__))), 'baseline_obligations.json')
 
 
